@@ -296,7 +296,9 @@ Definition loc_ok (pg : page) : bool := stays 0 (s "page" :: pg_loc pg).
 
 (* ------------------------------------------------------------------ file system *)
 
-Inductive node := File (content : nat) | Dir.
+(* a symbolic link carries its target as an absolute path (its own links resolved as far as
+   they exist: os.path.realpath), which may be missing (dangling link) *)
+Inductive node := File (content : nat) | Dir | Link (target : path).
 
 (* a file system is a finite map from paths to nodes, represented by its lookup function;
    [of_list] builds one from an association list (first binding wins) *)
@@ -330,6 +332,34 @@ Definition mkdirs (f : fs) (p : path) : fs :=
 
 Definition writable (f : fs) (t : path) : bool := is_dir f (parent t) && negb (is_dir f t).
 
+(* What a path leads to when symbolic links are followed, as the kernel does for stat/open/
+   scandir: a link met on the way (also as the last component) is replaced by its target; at most
+   [fuel] links are followed in one walk (Linux: 40, then ELOOP).  Never answers with a link. *)
+Fixpoint follow (fuel : nat) (f : fs) {struct fuel} : path -> list str -> option node :=
+  fix walk (pre : path) (cs : list str) {struct cs} : option node :=
+    match cs with
+    | [] => match f pre with Some (Link _) => None | x => x end
+    | c :: cs' =>
+      match f (pre ++ [c]) with
+      | Some (Link t) => match fuel with 0 => None | S n => follow n f [] (t ++ cs') end
+      | Some Dir => match cs' with [] => Some Dir | _ => walk (pre ++ [c]) cs' end
+      | Some (File x) => match cs' with [] => Some (File x) | _ => None end
+      | None => None
+      end
+    end.
+
+Definition deref (f : fs) (p : path) : option node := follow 40 f [] p.
+
+Definition leads_to_dir (f : fs) (p : path) : bool :=
+  match deref f p with Some Dir => true | _ => false end.
+
+(* Path.touch() follows links: the entry it acts on (whose mtime it sets, or which it creates
+   when missing) is the link's target.  ford.output.copytree touches every entry below the
+   destination of a copy; those entries are never links (see [CopyTree] below and
+   copies_are_not_links in the proofs), so every touch acts on the entry itself. *)
+Definition touch_acts_on (f : fs) (p : path) : path :=
+  match f p with Some (Link t) => t | _ => p end.
+
 Definition run_op (o : op) (f : fs) : fs :=
   match o with
   | RmTree p => if is_dir f p then fun q => if prefixb p q then None else f q else f
@@ -341,19 +371,22 @@ Definition run_op (o : op) (f : fs) : fs :=
     end
   | MkDirParents p => mkdirs f p
   | Write p => if writable f p then upd f p (Some (File 0)) else f
-  | Copy a b =>
-    match f a with
+  | Copy a b =>                        (* shutil.copy reads through links *)
+    match deref f a with
     | Some (File c) =>
       let t := if is_dir f b then b ++ [last a []] else b in
       if writable f t then upd f t (Some (File c)) else f
     | _ => f
     end
   | CopyTree a b =>
-    if is_dir f a && is_none (f b) then
+    (* shutil.copytree(src, dst) with symlinks=False: every entry is copied as what it leads
+       to (a link to a file becomes a file, a link to a directory a directory tree, a dangling
+       link or one beyond the 40-link limit is reported and left out) *)
+    if leads_to_dir f a && is_none (deref f b) && is_none (f b) then
       let g := mkdirs f b in
       if is_dir g b then
         fun q => match strip_prefix b q with
-                 | Some suf => match f (a ++ suf) with Some n => Some n | None => g q end
+                 | Some suf => match deref f (a ++ suf) with Some n => Some n | None => g q end
                  | None => g q
                  end
       else f
